@@ -673,7 +673,7 @@ def gen_ctor(rng, i):
         if mode.startswith('labelmap3'):
             vals = [rng.choice([0] + segs) for _ in range(n)]
             if mode == 'labelmap3_bad':
-                cand = [v for v in (max(segs) + 1, 1, 2, 3, 6, 254, 299) if v not in segs]
+                cand = [v for v in (max(segs) + 1, 1, 2, 3, 6, 254, 299) if v not in segs and v <= 65535]
                 vals[rng.randrange(n)] = rng.choice(cand)
             if max(vals) > 255:
                 sub['in_dtype'] = 'uint16'
